@@ -15,7 +15,7 @@ func init() { register("C13", "other", checkC13) }
 
 func checkC13(w *World, r *Result) {
 	r.Explanation = "Decides structural necessary conditions on analysis/httpapi: AGR-C13a every types.Type-typed contract slot that resolveTypes resolves back through the shared analysis is also collected into the list that analysis is built from (else the slot stays nil unless another route mentions the type); AGR-C13b every exported field of Endpoint/Contract/Form/TypedParam has a writer in httpapi and a reader in the TypeScript client generator; SHP-C13v the verb set contains GET, PUT, POST, DELETE; SHP-C13n a registration is skipped by arity only when it has fewer than two arguments; SHP-C13p between URL resolution and the append the only filter is the prefix test; SHP-C13h the handler resolution covers method/package selector, identifier and function literal, and a declared handler's body is selected by its declaration position (unique), not by name; SHP-C13o endpoints are only appended, inside one syntax walk that does not descend into a recorded registration (source order, one entry each); SHP-C13r the return statement parser reads JSON/JSONPretty's 2nd and Blob's 3rd argument and sets the blob flag with it; OBL-* no unguarded partial operation in the package. Does not decide: one entry per registration and constant folding as value-level facts about arbitrary programs."
-	r.Rules = []string{"AGR-C13a", "AGR-C13b", "SHP-C13v", "SHP-C13n", "SHP-C13p", "SHP-C13h", "SHP-C13o", "SHP-C13r", "SHP-C13g", "OBL-*", "MEMO-KEY", "PKG-ID", "ALIAS-APPEND", "STATE-PKG"}
+	r.Rules = []string{"AGR-C13a", "AGR-C13b", "SHP-C13v", "SHP-C13n", "SHP-C13p", "SHP-C13h", "SHP-C13o", "SHP-C13r", "SHP-C13g", "SHP-C13q", "OBL-*", "MEMO-KEY", "PKG-ID", "ALIAS-APPEND", "STATE-PKG"}
 	statePkgRule(w, r, func(rel string) bool { return rel == "analysis/httpapi" || rel == "analysis" })
 	aliasAppendRule(w, r, func(rel string) bool { return rel == "analysis/httpapi" })
 	memoKeyRule(w, r, func(rel string) bool { return rel == "analysis/httpapi" })
@@ -24,6 +24,7 @@ func checkC13(w *World, r *Result) {
 	checkRecordCoverage(w, r)
 	checkExtractShape(w, r)
 	checkGenericForms(w, r)
+	checkResolvedPackage(w, r)
 	checkResolveFunc(w, r)
 	checkReturnParser(w, r)
 	for _, o := range runOBL(w, func(rel string) bool { return rel == "analysis/httpapi" }) {
@@ -724,5 +725,65 @@ func checkGenericForms(w *World, r *Result) {
 			"under an explicit instantiation the callee form(s) "+strings.Join(missing, ", ")+" are not handled although they are without one: e.g. `helpers.QueryParamInt[ID](c, \"id\")` is silently dropped from the contract")
 	default:
 		r.bad("SHP-C13g", fi.Name, cons, w.Pos(ts.Pos()), "explicit instantiations (call.Fun is an *ast.IndexExpr) are neither unwrapped before the switch nor handled by a case: generic typed query helpers are dropped from the contract")
+	}
+}
+
+// checkResolvedPackage (SHP-C13q): resolveFunc returns the handler's body together with the package that
+// declares it; the contract is then read with THAT package's type information. parseEndpointFunc must pass the
+// triple on unchanged: returning another package (the routes file's) makes every handler reached through an
+// import -- a dot import, a method of an imported type -- be read with the wrong type information.
+func checkResolvedPackage(w *World, r *Result) {
+	fi := w.MustFunc("analysis/httpapi.parseEndpointFunc")
+	info := fi.Pkg.TypesInfo
+	rf := w.MustFunc("analysis/httpapi.resolveFunc")
+	n := 0
+	var visit func(list []ast.Stmt)
+	check := func(st ast.Stmt) {
+		switch s := st.(type) {
+		case *ast.ReturnStmt:
+			if len(s.Results) == 1 {
+				if call, ok := ast.Unparen(s.Results[0]).(*ast.CallExpr); ok && calleeOf(info, call) == rf.Obj {
+					n++
+					r.ok("SHP-C13q", fi.Name, "return "+es(call), w.Pos(s.Pos()), "body, name and declaring package of the handler are passed on together", true)
+				}
+			}
+		case *ast.AssignStmt:
+			if len(s.Rhs) == 1 {
+				if call, ok := ast.Unparen(s.Rhs[0]).(*ast.CallExpr); ok && calleeOf(info, call) == rf.Obj {
+					n++
+					dropped := false
+					for _, l := range s.Lhs {
+						if id := identOf(l); id != nil && id.Name == "_" {
+							dropped = true
+						}
+					}
+					r.cond(!dropped, "SHP-C13q", fi.Name, es(s.Lhs[0])+", … = "+es(call), w.Pos(s.Pos()),
+						"every result of resolveFunc is kept",
+						"a result of resolveFunc is discarded: the handler's body is then paired with a package other than the one that declares it, and its contract is read with the wrong type information (handlers reached through a dot import or an imported type)")
+				}
+			}
+		}
+	}
+	visit = func(list []ast.Stmt) {
+		for _, st := range list {
+			check(st)
+			ast.Inspect(st, func(x ast.Node) bool {
+				if b, ok := x.(*ast.BlockStmt); ok {
+					for _, s2 := range b.List {
+						check(s2)
+					}
+				}
+				if cc, ok := x.(*ast.CaseClause); ok {
+					for _, s2 := range cc.Body {
+						check(s2)
+					}
+				}
+				return true
+			})
+		}
+	}
+	visit(fi.Decl.Body.List)
+	if n == 0 {
+		Undecided("SHP-C13q: parseEndpointFunc no longer calls resolveFunc")
 	}
 }
